@@ -3,6 +3,11 @@
 DS = "deterministic simulation with fault injection"
 
 ENGINES = [
+    {"name": "exitsim", "path": "sim/exitsim.py",
+     "serves_properties": ["C18"],
+     "kind_free_text": "one fresh interpreter per run: generated script with a terminator at a chosen statement "
+                       "position (crash point), real atexit/sys.exit/excepthook machinery, side-channel trace dump, "
+                       "scratch working directory with optional stale artefacts; judged from the real exit status"},
     {"name": "proversim", "path": "sim/proversim.py",
      "serves_properties": ["C02", "C03", "C16"],
      "kind_free_text": "byzantine second party: one honest run gives the constraint system, operand wires and hint "
@@ -31,7 +36,15 @@ _T = "seeded search over event histories and fault schedules (deterministic simu
 
 _P = "seeded search over lying-prover fault schedules (deterministic simulation, byzantine fault injection)"
 
+_X = "seeded search over crash points x termination modes x configurations, one fresh interpreter per run (deterministic simulation, crash injection)"
+
 CHECK_META = {
+    "C18": {"engine": "exitsim", "design_ref": "3/C18", "technique": _X,
+            "text": "crash point x termination mode x backend x autoprove x stale-artefact histories, each in a fresh "
+                    "interpreter; expected outcome is a function of the real exit status; sampling of a small space "
+                    "(thorough tier covers every mode/argument/backend combination many times)",
+            "note": "os._exit / SIGKILL only checked for 'nothing partial appears'; qaptools rows use fake tool "
+                    "executables; two open known findings (SystemExit raised directly; caught sys.exit)"},
     "C02": {"engine": "proversim", "design_ref": "3/C02", "technique": _P,
             "text": "search for a second satisfying assignment with unchanged operands and a different result: every "
                     "hint wire x ~40 candidate lies incl. field quotients, with forward re-derivation, adjacent pairs, "
